@@ -289,21 +289,32 @@ def h_mul():
 
 
 def h_rotate():
-    g, ny, nx = mk()
-    deg = Real("deg")
-    if symx.concrete_mode():
-        import math
+    """rotation about the centre: the stub for affine.cos_sin_deg returns the harness's named
+    (cos, sin) pair with c^2+s^2 == 1, so that a counterexample carries the angle it needs"""
+    import math
 
+    g, ny, nx = mk()
+    cosv, sinv = Real("cosv"), Real("sinv")
+    if symx.concrete_mode():
+        deg = math.degrees(math.atan2(sinv, cosv))
         g2 = g.rotate(deg)
         c, s = math.cos(math.radians(deg)), math.sin(math.radians(deg))
         A, B_ = g.affine, g2.affine
-        close_pt("centre_fixed", g2.pix2wld(nx * 0.5, ny * 0.5), g.pix2wld(nx * 0.5, ny * 0.5))
+        scale = max(abs(v) for v in A[:6][:2] + A[:6][3:5]) * max(nx, ny)
+        p, q = g2.pix2wld(nx * 0.5, ny * 0.5), g.pix2wld(nx * 0.5, ny * 0.5)
+        prove("centre_fixed", abs(p[0] - q[0]) <= 1e-6 * scale and abs(p[1] - q[1]) <= 1e-6 * scale)
         close_pt("linear_col0", (B_.a, B_.d), (c * A.a - s * A.d, s * A.a + c * A.d))
         return
-    g2 = g.rotate(deg)
-    c = symx.ctx()
-    cc = symx.SymReal(__import__("z3").Real("_cos1"))
-    ss = symx.SymReal(__import__("z3").Real("_sin1"))
+    import affine
+
+    assume(cosv * cosv + sinv * sinv == 1)
+    saved = affine.cos_sin_deg
+    affine.cos_sin_deg = lambda deg: (cosv, sinv)
+    try:
+        g2 = g.rotate(Real("deg"))
+    finally:
+        affine.cos_sin_deg = saved
+    cc, ss = cosv, sinv
     A, B_ = g.affine, g2.affine
     h = F(1, 2)
     same_pt("centre_fixed", g2.pix2wld(nx * h, ny * h), g.pix2wld(nx * h, ny * h))
